@@ -115,6 +115,7 @@ func runC12(c *an.Ctx) {
 	checkElapsedOnlyWhenPublished(c, "C12.b", wait)
 	checkSharedSignalReleasedLast(c, "C12.b")
 	checkShortcutHeightMatches(c, "C12.a", lookup)
+	checkWaitNotUnderReadTransaction(c, "C12.a")
 	if np := p.Method("store", "heightSub", "Notify"); c.Need(np, "C12.c", "store.(*heightSub).Notify") {
 		checkNotifyAlwaysLooks(c, "C12.c", np)
 	}
@@ -397,6 +398,7 @@ func runC12(c *an.Ctx) {
 		}
 		ft := c.T(flush)
 		var app, ntf, adv *ssa.Call
+		var advs []*ssa.Call
 		an.Instrs(flush, func(in ssa.Instruction) {
 			call, isCall := in.(*ssa.Call)
 			if !isCall {
@@ -412,9 +414,19 @@ func runC12(c *an.Ctx) {
 			case "store.(*heightSub).Notify":
 				ntf = call
 			case "store.(*Store).advanceHead":
-				adv = call
+				advs = append(advs, call)
 			}
 		})
+		// the advance of the append step is the one that follows the notification on every path; a later
+		// re-evaluation (after the pointers were re-initialised before a flush) is not this step's
+		if ntf != nil {
+			for _, a := range advs {
+				a := a
+				if f, _ := (an.Flow{Fn: flush}).MustFollow(ntf, func(in ssa.Instruction) bool { return in == ssa.Instruction(a) }, nil); f && adv == nil {
+					adv = a
+				}
+			}
+		}
 		okO := app != nil && ntf != nil && adv != nil
 		if okO {
 			fl := an.Flow{Fn: flush}
